@@ -214,15 +214,19 @@ def default_configs(tier):
 
 
 # ------------------------------------------------------------------------------------------------
-def run_one(prop, cfg, tier, regress_path, known, outdir):
+def run_one(prop, cfg, tier, regress_path, known, outdir, mode=None, shard=None):
     t0 = time.time()
     exe, log = build_binary(prop, cfg)
     if exe is None:
         return {"config": cfg, "build_failed": True, "log": log[-3000:]}
-    out = os.path.join(outdir, "%s-%s.json" % (prop["id"], cfg.name))
+    out = os.path.join(outdir, "%s-%s%s.json" % (prop["id"], cfg.name, ("-%s-%d" % (mode, shard[0])) if shard else ("-" + mode if mode else "")))
     scale = prop.get("scale", {}).get(tier, 100)
-    cmd = [exe, "--mode", prop.get("mode", "all"), "--config", cfg.name, "--seed", str(SEED), "--tier", "0" if tier == "quick" else "1",
+    cmd = [exe, "--mode", mode or prop.get("mode", "all"), "--config", cfg.name, "--seed", str(SEED), "--tier", "0" if tier == "quick" else "1",
            "--scale", str(scale), "--out", out]
+    if shard:
+        cmd += ["--shard", "%d/%d" % shard]
+    if mode == "sweep":
+        regress_path = None
     if os.environ.get("VERIF_MAXFAIL"):
         cmd += ["--max-failures", os.environ["VERIF_MAXFAIL"]]
     if regress_path:
@@ -303,8 +307,20 @@ def main_check(pid, tier):
     if any(c.san_mode == "asan" for c in cfgs):
         driver_obj(True)
     ref_objs(prop)
+    if tier == "quick":
+        jobs = [(c, None, None) for c in cfgs]
+    else:
+        # thorough: every configuration runs the deterministic + rapidcheck phases; the large exhaustive sweeps run, sharded over
+        # processes, on the arm-cover configurations (which between them execute every reachable #if arm)
+        jobs = [(c, "enumrc", None) for c in cfgs]
+        cover = {C.Config(m).name for m in C.quick_macro_sets(os.path.join(INC, "avel"))}
+        nsh = int(os.environ.get("VERIF_SWEEP_SHARDS", "8"))
+        if prop.get("sweep", True):
+            for c in cfgs:
+                if c.name in cover:
+                    jobs += [(c, "sweep", (i, nsh)) for i in range(nsh)]
     with ThreadPoolExecutor(max_workers=JOBS) as ex:
-        results = list(ex.map(lambda c: run_one(prop, c, tier, rpath, known, outdir), cfgs))
+        results = list(ex.map(lambda j: run_one(prop, j[0], tier, rpath, known, outdir, j[1], j[2]), jobs))
     return aggregate(pid, prop, tier, cfgs, results, known, nreg, t0)
 
 
@@ -338,7 +354,8 @@ def aggregate(pid, prop, tier, cfgs, results, known, nreg, t0, extra_cov=None):
             tail = r.get("stderr", "")[-1500:]
             broken.append("%s: no result (exit %s) %s" % (cfg.name, r.get("rc"), tail))
             continue
-        executed.append(cfg.name)
+        if cfg.name not in executed:
+            executed.append(cfg.name)
         rule = j["rule"]
         ev["evaluations"] += j["evaluations"]; ev["lanes"] += j["lanes_compared"]; ev["nontrivial"] += j["nontrivial"]
         ev["distinct_max"] = max(ev["distinct_max"], j["distinct_nontrivial"]); ev["distinct_sum"] += j["distinct_nontrivial"]
